@@ -9,7 +9,7 @@ RULE = ("cases = all 12 decorators x maxsize x purge x backend x history of call
         "clear(keepstats=True), archive toggles, direct archive writes. Oracle per completed call: exactly one of hit/miss/load moves by one, "
         "chosen from the observed pre-state (resident => hit; else archived and in archive => load; else miss and exactly one evaluation); "
         "raising calls move nothing; hit+miss+load == completed calls since last reset; size == resident entries; maxsize == configured bound; "
-        "clear() => empty + zeros; clear(keepstats) => empty + unchanged. non-trivial = history shows hit, miss and load and at least one reset; "
+        "re-entrant functions (calling their own decorated self, also with the same arguments) keep miss == evaluations and the sum == completed calls; clear() => empty + zeros; clear(keepstats) => empty + unchanged. non-trivial = history shows hit, miss and load and at least one reset; "
         "distinct = (class, backend family, outcome/reset sequence)")
 ASSUMPTIONS = ['pre-state observed through f.__cache__() and its archive; f.key() identifies the call (C18 checks key() separately)']
 
@@ -33,7 +33,83 @@ def strata(tier):
     # safe decorators called with arguments no key can be built for (or whose key is unhashable): the call is a plain evaluation and
     # must be counted as exactly one miss
     degraded = [('degraded/' + n, s) for n, s in c16.hostile_strata(tier)[::3]]
-    return degraded + [(n, st.tuples(s, st.sampled_from([0, 1, 2])).map(_with_scenario)) for n, s in _strata(tier)]
+    reent = [('reentrant/' + a, reentrant_cases(a)) for a in H.ALGOS]
+    return degraded + reent + [(n, st.tuples(s, st.sampled_from([0, 1, 2])).map(_with_scenario)) for n, s in _strata(tier)]
+
+
+def reentrant_cases(algo):
+    """functions that call their own decorated self while being evaluated (recursion, also on the SAME arguments, bottoming out at depth 2)"""
+    from hypothesis import strategies as st
+    return st.fixed_dictionaries({
+        'part': st.just('reent'), 'module': st.sampled_from(['std', 'safe']), 'algo': st.just(algo), 'maxsize': st.sampled_from([1, 2, 3]),
+        'purge': st.booleans(), 'arch': st.sampled_from(['none', 'dict', 'dir']),
+        'plan': st.lists(st.lists(st.integers(0, 3), max_size=2), min_size=4, max_size=4),
+        'calls': st.lists(st.integers(-2, 3), min_size=1, max_size=12)})      # -1: clear(), -2: clear(keepstats=True)
+
+
+def run_reentrant(case):
+    import os
+    import klepto.archives as KA
+    out = []
+    algo = case['algo']
+    classes = ['part:reent', 'module:' + case['module'], 'eff_algo:' + algo, 'reent_arch:' + case['arch']]
+    st = {'ev': 0, 'done': 0, 'depth': 0, 'nested_same': 0, 'nested': 0}
+    plan = case['plan']
+    box = {}
+
+    def body(x):
+        st['ev'] += 1
+        if st['depth'] < 2:
+            st['depth'] += 1
+            try:
+                for y in plan[x]:
+                    box['f'](y)
+                    st['done'] += 1
+                    st['nested'] += 1
+                    st['nested_same'] += (y == x)
+            finally:
+                st['depth'] -= 1
+        return ('r', x)
+    with H.Scratch() as sc:
+        kw = {}
+        if case['arch'] == 'dict':
+            kw['cache'] = KA.dict_archive('reent', cached=True)
+        elif case['arch'] == 'dir':
+            kw['cache'] = KA.dir_archive(os.path.join(sc.path, 'reent'), cached=True, serialized=True)
+        if algo not in ('no', 'inf'):
+            kw.update(maxsize=case['maxsize'], purge=case['purge'])
+        f = box['f'] = H.decorator_class(case['module'], algo)(**kw)(body)
+        for i, x in enumerate(case['calls']):
+            if x < 0:
+                f.clear(keepstats=(x == -2))
+                if x == -1:
+                    st['ev'] = st['done'] = 0
+                continue
+            try:
+                r = f(x)
+            except Exception as e:
+                out.append(Discrepancy('C15/reentrant/%s/call-raised/%s' % (algo, H.exc_sig(e)), 'call %d f(%d) plan %r: %r' % (i, x, plan, e)))
+                break
+            st['done'] += 1
+            inf = f.info()
+            if r != ('r', x):
+                out.append(Discrepancy('C15/reentrant/%s/wrong-result' % algo, 'f(%d) returned %r' % (x, r)))
+            elif inf.miss != st['ev']:
+                out.append(Discrepancy('C15/reentrant/%s/miss-is-not-evaluations' % algo, 'after call %d of %r (plan %r): miss=%d, the function was evaluated %d times since the last reset' % (
+                    i, case['calls'], plan, inf.miss, st['ev'])))
+            elif inf.hit + inf.miss + inf.load != st['done']:
+                out.append(Discrepancy('C15/reentrant/%s/sum-not-completed-calls' % algo, 'after call %d of %r (plan %r): hit+miss+load=%d+%d+%d, %d calls completed since the last reset' % (
+                    i, case['calls'], plan, inf.hit, inf.miss, inf.load, st['done'])))
+            elif inf.size != len(f.__cache__()):
+                out.append(Discrepancy('C15/reentrant/%s/size-wrong' % algo, 'info().size=%r, %d resident' % (inf.size, len(f.__cache__()))))
+            if out:
+                break
+    if st['nested']:
+        classes.append('reentrant_call')
+    if st['nested_same']:
+        classes.append('reentrant_same_key')
+    nt = ('reent', case['module'], algo, case['arch'], case['maxsize'], tuple(map(tuple, plan)), tuple(case['calls'])) if st['nested_same'] else None
+    return out, nt, classes
 
 
 def check_degraded(case, tr):
@@ -142,6 +218,8 @@ def check_trace(case, tr):
 
 
 def run_case(case):
+    if case.get('part') == 'reent':
+        return run_reentrant(case)
     if case.get('part') == 'b':
         tr = H.run_history(case)
         discrs, seen = check_degraded(case, tr)
@@ -168,6 +246,6 @@ def extra_passes(run, tier, shard, nshards):
     exhaustive_sweep(run, tier, shard, nshards, lambda case, tr: check_trace(case, tr)[0])
 
 
-REQUIRED_CLASSES = ['seen:degraded', 'seen:hit', 'seen:miss', 'seen:load', 'seen:reset', 'seen:keep', 'seen:raise', 'all_three_outcomes_and_reset',
+REQUIRED_CLASSES = ['reentrant_call', 'reentrant_same_key', 'seen:degraded', 'seen:hit', 'seen:miss', 'seen:load', 'seen:reset', 'seen:keep', 'seen:raise', 'all_three_outcomes_and_reset',
                     'eff_algo:no', 'eff_algo:inf', 'module:safe']
 TRIGGERS = {}
